@@ -49,7 +49,7 @@ ASSUMPTIONS = [
     "(C21_replicate_interp_instances); for the real engines this is what hlog_table evaluates",
     "theorem scope: d and mapping_table are table descriptions with distinct columns; order_by / partition_by name "
     "columns of d; column names spliced into expression text are identifiers; selection_predicate is the default "
-    "'is_null()'; coalesce_value is absent or an int/float/bool; d keyed by row_keys and the mapping table by "
+    "'is_null()'; coalesce_value is absent or an int/float/bool/str; d keyed by row_keys and the mapping table by "
     "(col_name_key, col_value_key) (documented preconditions of def_multi_column_map); counts in 1..max_count",
 ]
 NOT_PROVEN = [
@@ -58,8 +58,8 @@ NOT_PROVEN = [
     "on SQLite = SQL model) and by the independent references of the oracle run on SQLite results for every case",
     "last_observed_carried_forward with a missing partition key on SQLite / a Pandas join type check (finding "
     "C21-locf-null-partition); replicate_rows_query with count 0 (finding C21-replicate-zero-count); "
-    "def_multi_column_map with one listed column (finding C21-multi-map-single-column) or a str coalesce value "
-    "(finding C21-coalesce-text): outside the theorems' hypotheses, reported by the oracle",
+    "def_multi_column_map with one listed column (finding C21-multi-map-single-column): outside the theorems' "
+    "hypotheses, reported by the oracle",
     "general views d (not table descriptions): proved for rank_to_average only (C21_rank_to_average_view); for the "
     "other helpers the builders' simplifications over an arbitrary prefix are C06's subject",
     "float behaviour of log/ceil beyond the exhaustively evaluated range 1..N",
@@ -339,9 +339,10 @@ def gen_mcm_case(rng, tier, ncols=None):
     if names["col_name_key"] != "column_name":
         params.update(names)
     if rng.random() < 0.5:
-        cvv = rng.choice([0, -1, 99, 0.25]) if mk == "float" else None
-        if cvv is not None:
-            params["coalesce_value"] = pipes.enc_val(cvv, "float" if isinstance(cvv, float) else "int")
+        # string values (also ones that look like column names, or carry quotes) are spliced as quoted literals
+        cvv = rng.choice([0, -1, 99, 0.25]) if mk == "float" else rng.choice(
+            ["unknown", names["col_value_key"], "it's", 'say "x"', "", "a b"])
+        params["coalesce_value"] = pipes.enc_val(cvv, "float" if isinstance(cvv, float) else ("str" if isinstance(cvv, str) else "int"))
     if rng.random() < 0.4:
         params["cols_to_map_back"] = [c + "_mapped" for c in map_cols]
     return {"helper": "def_multi_column_map", "params": params, "tables": tables}
@@ -682,8 +683,6 @@ def known_finding(case, why):
         j = t["cols"].index(p["count_column_name"]) if p["count_column_name"] in t["cols"] else None
         if j is not None and any(pipes.dec_val(r[j]) == 0 for r in t["rows"]):
             return F_ZERO
-    if h == "def_multi_column_map" and isinstance(p.get("coalesce_value"), dict) and "s" in p["coalesce_value"]:
-        return F_COALESCE
     if h == "last_observed_carried_forward" and (why.startswith("sqlite-locf") or why.startswith("pandas-raises")):
         t = case["tables"]["d"]
         part = list(p.get("partition_by") or [])
